@@ -261,6 +261,18 @@ contract('Batching._build_model_from_kwargs', params={'model_cls': 'any', 'kwarg
          assumes=['model_cls(**kwargs) (user code) returns a well-formed Model built from kwargs only'])
 
 
+def build_model_impl_post(model_cls, kwargs, result):
+    """The helper itself: the model is model_cls called with exactly the given keyword arguments - nothing dropped,
+    renamed or added (a seed passed through **kwargs reaches the model: C07)."""
+    return result is model_cls(**kwargs)
+
+
+contract('Batching._build_model_from_kwargs', variant='impl', params={'model_cls': 'any', 'kwargs': 'any'}, returns='any',
+         ensures={'C15': [build_model_impl_post], 'C16': [build_model_impl_post], 'C07': [build_model_impl_post]},
+         modifies=['store:*'], native=False, props=['C15', 'C16', 'C07'],
+         assumes=['model_cls(**kwargs) is user code: an uninterpreted function of the class and the keyword arguments'])
+
+
 def site_build(model_cls, kwargs, collectors, max_timesteps, arg):
     """Exactly one fresh model per execution, built from the run's own keyword arguments only."""
     return ghost().n_built == 0 and same(arg, model_cls)
